@@ -515,6 +515,11 @@ func (x *c10ctx) checkLoops(f *ssa.Function, rule string) {
 					bounded, why = true, "range over a finite container"
 					break
 				}
+				// the "more" flag of runtime.Frames.Next: the frames of a pc buffer (whose fixed size is a separate obligation)
+				if cl, isCall := ex.Tuple.(*ssa.Call); isCall && CalleeName(cl.Common()) == "(*runtime.Frames).Next" && ex.Index == 1 {
+					bounded, why = true, "polls runtime.Frames.Next until it reports no more frames"
+					break
+				}
 			}
 			bo, ok := iff.Cond.(*ssa.BinOp)
 			if !ok {
